@@ -48,6 +48,9 @@ SHAPES = {
     's2': {'a': {'x': 1}, 'b': {'b': {'b': {'x': 2}}}},
     's3': {'a': {'a': {'a': {'x': 1}}, 'c': {'x': 4}}, 'b': {'x': 2},
            'c': {'b': {'x': 3}}},
+    # a falsy key (dictionary helpers only): the empty string.  Keys are
+    # strings by the HierarchyPath type (assoc_in passes them as keywords)
+    's4': {'': {'': {'x': 1}, 'b': {'x': 2}}, 'b': {'x': 3}},
 }
 
 
@@ -66,6 +69,9 @@ def jobs(tier):
                         else ['a', 'b', 'c', 'x'],
                         budget_s=100 if tier == 'quick' else 900,
                         crosscheck=20 if tier == 'thorough' else 0))
+    out.append(dict(name='dict-s4-falsy-keys', part='dict', shape='s4',
+                    maxlen=3, alph=['', 'b', 'x'],
+                    budget_s=100 if tier == 'quick' else 600))
     return out
 
 
